@@ -68,10 +68,12 @@ Fixpoint map_res {A B : Type} (f : A -> res B) (l : list A) : res (list B) :=
   | a :: t => do b <- f a; do bs <- map_res f t; Ok (b :: bs)
   end.
 
-(* __construct_byset: keep the members reachable from `start` in steps of interval mod base *)
+(* __construct_byset: keep the members reachable from `start` in steps of interval mod base; members outside
+   0..base-1 can never match and are skipped (fix e1e7505) *)
 Definition construct_byset (itv start : Z) (byxxx : list Z) (base : Z) : res (list Z) :=
-  let cset := filter (fun num => let g := Z.gcd itv base in
-                                 (g =? 1) || ((num - start) mod g =? 0)) byxxx in
+  let cset := filter (fun num => (0 <=? num) && (num <? base) &&
+                                 (let g := Z.gcd itv base in
+                                  (g =? 1) || ((num - start) mod g =? 0))) byxxx in
   match cset with [] => Err EValue | _ => Ok cset end.
 
 Definition setpos_ok (l : list Z) : bool :=
@@ -130,6 +132,9 @@ Definition normalize (r : raw) : res rule :=
       else if negb (nonempty nth) then (Some plain, None)
       else (Some plain, Some nth)
     end in
+  (* 567-569 (fix 55654b4): `if 0 in bymonthday: raise ValueError` -- every failure of the constructor is a
+     ValueError, so its place among the checks is not observable *)
+  do _ <- (if memZ 0 (opt_list bymonthday0) then Err EValue else Ok tt);
   (* 629-646 *)
   do byhour1 <-
     match r_byhour r with
